@@ -57,7 +57,10 @@ template <class G> struct C03 {
       if (xs[i].hemi > 0) { cur_mine = R.mine(); have_prev = false; }
       if (!cur_mine) continue;
       const lat::XAtom& xa = xs[i];
-      if (!R.args.replay.empty() && R.args.replay.find("/" + xa.key.substr(0, xa.key.rfind(",w"))) == std::string::npos) { have_prev = false; continue; }
+      {
+        std::string base = xa.key.substr(0, xa.key.rfind(",w"));
+        if (!(R.want(base + ",w>=0") || R.want(base + ",w<0") || R.want(xa.key))) { have_prev = false; continue; }
+      }
       G X = vf::make_elem<G>(xa.c);
       T L;
       bool ok = check_element(X, xa.key, "reference-built coefficients", &L);
@@ -93,7 +96,7 @@ template <class G> struct C03 {
       if (!R.mine()) continue;
       const lat::TAtom& a = ts[i];
       if (!(a.theta < lat::PI)) continue;
-      if (!R.args.replay.empty() && R.args.replay.find("/" + a.key) == std::string::npos) continue;
+      if (!(R.want(a.key) || R.want("exp(" + a.key + ")"))) continue;
       T t = vf::make_tan<T>(a.t);
       G X = t.exp();
       if (!vf::all_finite(X.coeffs())) continue;  // C02's business
@@ -124,7 +127,7 @@ template <class G> struct C03 {
           ++R.product_size;
           if (!R.mine()) continue;
           std::string key = std::string(variant == 0 ? "exp(pi*u)*exp((pi-d)*u)" : (variant == 1 ? "exp((2/3)(2pi-d)*u)^3" : "exp((pi-d)u)*exp(-(pi)u)^-1")) + ",d=" + dn[k] + ",base=" + base[i].key;
-          if (!R.args.replay.empty() && R.args.replay.find("/" + key) == std::string::npos) continue;
+          if (!R.want(key)) continue;
           // scale the rotation coordinates of the base tangent to the wanted angles, keep its linear part
           ref::Vec t1 = base[i].t, t2 = base[i].t;
           ref::Real a1, a2;
